@@ -4,6 +4,7 @@
 package bubble
 
 import (
+	"github.com/bokysan/socketace/v2/verifharness/syncshim"
 	"fmt"
 	"io"
 	"os"
@@ -131,6 +132,7 @@ func SetupLogging() {
 // not fatal.
 func Run(t *testing.T, body func()) (res Result) {
 	SetupLogging()
+	syncshim.Epoch.Add(1)
 	hook.reset()
 	hook.active.Store(true)
 	defer hook.active.Store(false)
